@@ -1274,6 +1274,39 @@ def check_c18(tier, seed):
                             if not np.array_equal(t.data, d0, equal_nan=True) or (g0 is not None and not np.array_equal(t.grad, g0)) or (g0 is None and t.grad is not None) or (t.creator, t.base, t.constant, len(t._ops)) != fields0:
                                 b.fail("C18.bounded.save_alters_tensor", desc, "saving altered the tensor, its gradient or its graph fields")
                             b.case(desc)
+        # the round trip with graph tracking switched off around save, around load, or around both (a tensor's saved state does not depend on it)
+        for where_off in ("save", "load", "both"):
+            for shape in [(), (3,), (2, 3)]:
+                for dt in (np.float32, np.float64):
+                    for fk in ("path", "bytesio"):
+                        t = mg.tensor(rng.uniform(-2, 2, size=shape).astype(dt))
+                        (t * 2.0).sum().backward()
+                        d0, g0 = t.data.copy(), t.grad.copy()
+                        desc = dict(family="round trip with graph tracking switched off", no_autodiff_around=where_off, shape=list(shape), dtype=np.dtype(dt).name, file=fk)
+                        n += 1
+                        f = os.path.join(tmpdir, f"na{n}.npz") if fk == "path" else io.BytesIO()
+                        try:
+                            if where_off in ("save", "both"):
+                                with mg.no_autodiff:
+                                    mg.save(f, t)
+                            else:
+                                mg.save(f, t)
+                            if fk != "path":
+                                f.seek(0)
+                            if where_off in ("load", "both"):
+                                with mg.no_autodiff:
+                                    r = mg.load(f)
+                            else:
+                                r = mg.load(f)
+                        except Exception as e:
+                            b.fail("C18.bounded.raises", desc, f"{type(e).__name__}: {e}")
+                            continue
+                        b.count("round trip")
+                        if not (isinstance(r, Tensor) and r.dtype == t.dtype and r.shape == t.shape and np.array_equal(r.data, d0)):
+                            b.fail("C18.bounded.data", desc, "loaded data differs")
+                        if r.grad is None or r.grad.dtype != g0.dtype or r.grad.shape != g0.shape or not np.array_equal(r.grad, g0):
+                            b.fail("C18.bounded.grad_lost_without_tracking", desc, f"loaded gradient = {None if r.grad is None else r.grad.tolist()}, saved {g0.tolist()}")
+                        b.case(desc)
         # memory layouts and non-uniform gradients: Fortran-ordered / transposed / strided / axis-permuted data, gradients with distinct entries
         # (also nan / inf), every float width: the loaded tensor has the saved values element by element, whatever layout the archive keeps
         def layouts():
